@@ -175,10 +175,17 @@ def gen_c09(rng, i):
 
 
 def gen_c11(rng, i):
-    g = S.HistGen(rng, rng.sample(S.NAMES_PLAIN, rng.randint(2, 9)), logs=False)
+    g = S.HistGen(rng, rng.sample(S.NAMES_PLAIN, rng.randint(2, 9)), logs=i % 4 == 1)
     g.steps.append({"op": "open", "h": 1})
     for t in range(rng.randint(1, 6)):
-        g.add(part=None)
+        part = None
+        if g.logs and rng.random() < 0.4:
+            # a table that holds reflog entries only (no ref section at all) somewhere in the stack
+            part = g.part()
+            part["refs"] = []
+            if not part["logs"]:
+                part["logs"] = [S.rand_log(rng, g.names[0], [], g.cfg["exact"])]
+        g.add(part=part)
         if rng.random() < 0.25 and g.ntab >= 2:
             f = rng.randint(0, g.ntab - 2)
             l = rng.randint(f + 1, g.ntab - 1)
@@ -198,6 +205,11 @@ def gen_c12(rng, i):
     for t in range(rng.randint(2, 7)):
         multi = rng.random() < 0.3
         g.add(multi=multi, nparts=2 if multi else 1)
+        if multi and rng.random() < 0.5:
+            # the caller goes on after a refused table and commits the rest (a refused table leaves no effect)
+            g.steps[-1]["goon"] = True
+            if rng.random() < 0.5:
+                g.steps[-1]["parts"].append(g.part())
         g.steps.append({"op": "view", "h": 1, "tag": "C12", "hasraw": False})
     return g.history("c12-%d" % i)
 
